@@ -276,16 +276,23 @@ func (w *worker) node(s *Scenario, prefix []int, hash uint64, depth int, expand 
 			Steps: x.Steps, Obs: x.Observations(), Blocked: x.EndBlocked, Faults: x.Faulted, Devs: x.Devs}
 	}
 	if vv := x.Violations(); len(vv) > 0 && allKnown(t.Known, vv) >= 0 {
-		k := allKnown(t.Known, vv)
 		if r.KnownHits == nil {
 			r.KnownHits = map[int]int{}
 			r.KnownSample = map[int]*Found{}
 		}
-		r.KnownHits[k]++
-		if r.KnownSample[k] == nil {
-			f := mk()
-			f.Steps = nil
-			r.KnownSample[k] = &f
+		for _, v := range vv {
+			for i := range t.Known {
+				if t.Known[i].match(v) {
+					k := t.Known[i].Idx
+					r.KnownHits[k]++
+					if r.KnownSample[k] == nil {
+						f := mk()
+						f.Steps = nil
+						r.KnownSample[k] = &f
+					}
+					break
+				}
+			}
 		}
 	} else if len(vv) > 0 {
 		if len(r.Found) < w.maxFound {
